@@ -221,3 +221,30 @@ pub fn run_vamm_history(rng: &mut Rng, h: &mut History, r: &mut Report, steps: u
     }
     h.finish(r);
 }
+
+/// W-VAMM "busy window": one small trade in each of a few hundred consecutive short blocks, so that a TWAP
+/// window holds far more reserve snapshots than any fixture builds while the price creeps by a few per cent
+/// only (a mis-weighted average then falls outside the narrow range of prices in effect).
+pub fn run_vamm_busy(rng: &mut Rng, h: &mut History, r: &mut Report, blocks: u64) {
+    let v = 0usize;
+    let bias = rng.below(3);
+    let max_secs = *rng.pick(&[2u64, 6, 12, 30]);
+    for k in 0..blocks {
+        let s = h.last.vamms[v].clone();
+        let add = match bias {
+            0 => true,
+            1 => false,
+            _ => k % 2 == 0,
+        };
+        let amt = (s.q / 100_000).max(1) * rng.u128_range(1, 20);
+        h.step(
+            Op::Vamm { sender: DRIVER.into(), vamm: v, msg: vm::ExecuteMsg::SwapInput { direction: dir(add), quote_asset_amount: u(amt), base_asset_limit: u(0), can_go_over_fluctuation: true } },
+            r,
+        );
+        let nanos = if rng.chance(1, 4) { rng.below(1_000_000_000) } else { 0 };
+        h.step(Op::Advance { blocks: 1, secs: rng.range(1, max_secs), nanos }, r);
+    }
+    r.count("busy-window-histories");
+    h.finish(r);
+}
+
